@@ -5,6 +5,7 @@ package dtls
 import (
 	"context"
 	"fmt"
+	"sync"
 	"sync/atomic"
 	"testing"
 	"testing/synctest"
@@ -427,6 +428,7 @@ type c06XCase struct {
 	Done     bool   `json:"done"`   // (early) the receiving side completed its handshake
 	Parked   int    `json:"parked"` // (early) records still in Conn.encryptedPackets at the end
 	Notes    string `json:"notes,omitempty"`
+	Notes2   string `json:"notes2,omitempty"`
 }
 
 func c06Index(payloads [][]byte, got []byte) int {
@@ -612,6 +614,160 @@ func runC06Early(t *testing.T, variant string, w, n int) c06XCase {
 	return res
 }
 
+type c06Store struct {
+	mu sync.Mutex
+	m  map[string]Session
+}
+
+func (s *c06Store) Set(key []byte, v Session) error {
+	s.mu.Lock()
+	defer s.mu.Unlock()
+	s.m[string(key)] = v
+
+	return nil
+}
+
+func (s *c06Store) Get(key []byte) (Session, error) {
+	s.mu.Lock()
+	defer s.mu.Unlock()
+
+	return s.m[string(key)], nil
+}
+
+func (s *c06Store) Del(key []byte) error {
+	s.mu.Lock()
+	defer s.mu.Unlock()
+	delete(s.m, string(key))
+
+	return nil
+}
+
+// runC06EarlyResumed: the mirror image of runC06Early for an abbreviated handshake, where the CLIENT sends the
+// last flight and may write at once: its n payloads (and, with closeToo, its close_notify) reach the server
+// before the datagram that carries its ChangeCipherSpec and Finished.
+func runC06EarlyResumed(t *testing.T, variant string, w, n int, closeToo bool) c06XCase {
+	t.Helper()
+	cs, ss := &c06Store{m: map[string]Session{}}, &c06Store{m: map[string]Session{}}
+	mk := func() (*dtlsConfig, *dtlsConfig) {
+		c, s := c06Variant(variant, w)
+		c.sessionStore, s.sessionStore = cs, ss
+		c.ServerName = "c06.verif"
+
+		return c, s
+	}
+	c0, s0 := mk()
+	lab0 := newLab(t, c0, s0)
+	lab0.Pump.run(lab0.bothDone, 60*time.Second)
+	if !lab0.established() {
+		t.Fatalf("seeding session failed: %v %v", lab0.Client.Err, lab0.Server.Err)
+	}
+	lab0.close()
+	ccfg, scfg := mk()
+	lab := newLab(t, ccfg, scfg)
+	defer lab.close()
+	kind := "early-resumed"
+	if closeToo {
+		kind = "early-resumed-close"
+	}
+	res := c06XCase{Kind: kind, Variant: variant, W: w, N: n}
+	payloads := make([][]byte, n+1)
+	for i := range payloads {
+		payloads[i] = []byte(fmt.Sprintf("payload-%04d", i))
+	}
+	next := 0
+	var final []vDatagram
+	deadline := time.Now().Add(60 * time.Second)
+	for !lab.Client.handshakeDone() && time.Now().Before(deadline) {
+		synctest.Wait()
+		batch := lab.Net.since(next)
+		if len(batch) == 0 {
+			time.Sleep(50 * time.Millisecond)
+
+			continue
+		}
+		for _, d := range batch {
+			next = d.Idx + 1
+			isFinal := false
+			if d.From == "client" {
+				for _, r := range vParseDatagram(d.Data, 0) {
+					if r.CT == int(protocol.ContentTypeChangeCipherSpec) {
+						isFinal = true
+					}
+				}
+			}
+			if isFinal {
+				final = append(final, d)
+
+				continue
+			}
+			lab.Net.deliver(d.To, d.From, d.Data)
+			synctest.Wait()
+		}
+	}
+	synctest.Wait()
+	for _, d := range lab.Net.since(next) {
+		next = d.Idx + 1
+		if d.From == "client" {
+			final = append(final, d)
+		}
+	}
+	if !lab.Client.handshakeDone() || lab.Client.Err != nil || len(final) == 0 {
+		res.Notes = fmt.Sprintf("setup: client done=%v err=%v final=%d", lab.Client.handshakeDone(), lab.Client.Err, len(final))
+
+		return res
+	}
+	early := vCapture(lab, "client", payloads[:n])
+	if closeToo {
+		mark := lab.Net.count()
+		_ = lab.Client.Conn.Close()
+		synctest.Wait()
+		for _, d := range lab.Net.since(mark) {
+			if d.From == "client" {
+				early = append(early, d)
+			}
+		}
+	}
+	for _, d := range early {
+		lab.Net.deliver("server", "client", d.Data)
+		synctest.Wait()
+	}
+	for _, d := range final[:1] {
+		lab.Net.deliver("server", "client", d.Data)
+		synctest.Wait()
+	}
+	time.Sleep(100 * time.Millisecond)
+	synctest.Wait()
+	res.Done = lab.Server.handshakeDone() && lab.Server.Err == nil
+	if !res.Done {
+		res.Notes2 = vErrString(lab.Server.Err)
+	}
+	if res.Done {
+		lab.Server.startReader()
+		synctest.Wait()
+		if !closeToo {
+			last := vCapture(lab, "client", payloads[n:])
+			for _, d := range last {
+				lab.Net.deliver("server", "client", d.Data)
+				synctest.Wait()
+			}
+		}
+		time.Sleep(100 * time.Millisecond)
+		synctest.Wait()
+		for _, r := range lab.Server.reads() {
+			if i := c06Index(payloads, r); i >= 0 {
+				res.After = append(res.After, i)
+			} else {
+				res.Extra++
+			}
+		}
+	}
+	lab.Server.Conn.lock.RLock()
+	res.Parked = len(lab.Server.Conn.encryptedPackets)
+	lab.Server.Conn.lock.RUnlock()
+
+	return res
+}
+
 func TestVerifC06X(t *testing.T) {
 	out := newVOut(t)
 	for _, variant := range []string{"psk-gcm", "psk-cbc", "psk-gcm-cid", "cert-gcm"} {
@@ -627,6 +783,13 @@ func TestVerifC06X(t *testing.T) {
 				var c c06XCase
 				vBubble(t, func(t *testing.T) { c = runC06Early(t, variant, w, n) })
 				out.emit(c)
+				if variant == "psk-gcm" || variant == "psk-cbc" {
+					for _, cl := range []bool{false, true} {
+						cl := cl
+						vBubble(t, func(t *testing.T) { c = runC06EarlyResumed(t, variant, w, n, cl) })
+						out.emit(c)
+					}
+				}
 			}
 		}
 	}
